@@ -56,12 +56,12 @@ var respNames = []string{"ample", "exact", "deficit-1", "1sat", "barely", "empty
 
 type c12Scenario struct {
 	stdSat, stdBytes, dataSat, dataBytes int
-	priorVals                          []uint64
-	priorForm                          []int // 0 nil unlocking script, 1 empty non-nil, 2 already signed
-	transit                            bool  // starting tx went through an extended-format round trip
-	outs                               []c12Out
-	resps                              []c12Resp
-	seedBytes                          []byte
+	priorVals                            []uint64
+	priorForm                            []int // 0 nil unlocking script, 1 empty non-nil, 2 already signed
+	transit                              bool  // starting tx went through an extended-format round trip
+	outs                                 []c12Out
+	resps                                []c12Resp
+	seedBytes                            []byte
 }
 
 type c12Out struct {
